@@ -504,9 +504,12 @@ def _(p):
 # ------------------------------------------------------------------------------------------------ CLI
 
 if __name__ == "__main__":
-    _load_extras()
+    # dispatch through the canonical module instance (harness.replays): the extra replay modules register there, not in __main__
+    import harness.replays as _canon
+
+    _canon._load_extras()
     rec = json.load(open(sys.argv[1]))
-    bad = run(rec["payload"])
+    bad = _canon.run(rec["payload"])
     if bad:
         print(f"VIOLATION property={rec['property']} replay={sys.argv[1]}")
         print(f"  {bad}")
